@@ -268,6 +268,15 @@ func genEvCase(rng *simrt.Rand, tier string, o evGenOpts) *Case {
 	flushTS := maxTS + oooU + 3*maxI64(sizeU, step) + (sp.AL/u)*2 + 1
 	ops = append(ops, Op{K: "sleep", D: int64(time.Millisecond)})
 	ops = append(ops, Op{K: "emit", Row: Row{"id": "flush", "ts": int(flushTS), "k1": "~flush", "k2": "~flush", "v": 0}, Tag: "flush"})
+	if sp.Garbage && sp.Size >= int64(time.Second) && rng.Bool(0.5) {
+		// ratchet attempt: a legitimately skewed row 20h ahead of the clock (inside the 24h slack,
+		// accepted), then one 40h ahead (garbage by the wall clock, however far the watermark
+		// already is): the second one must not move the watermark, so the first one's window
+		// must never fire
+		ops = append(ops, Op{K: "sleep", D: int64(50 * time.Millisecond)})
+		ops = append(ops, Op{K: "emit", Row: Row{"id": "ahead", "ts": int(epochU + int64(20*time.Hour)/u), "k1": "~ahead", "k2": "~ahead", "v": 1}, Tag: "ahead"})
+		ops = append(ops, Op{K: "emit", Row: Row{"id": "beyond", "ts": int(epochU + int64(40*time.Hour)/u), "k1": "~ahead", "k2": "~ahead", "v": 1, "g": "future"}, Tag: "beyond"})
+	}
 	c.Clients = [][]Op{ops}
 	perf := &PerfSpec{ResultChan: 2 + rng.Intn(4), Workers: 1 + rng.Intn(2), PoolSize: 1 + rng.Intn(3)}
 	if rng.Bool(0.4) {
